@@ -733,6 +733,14 @@ class Object(base.Symbolic, metaclass=ObjectMeta):
             as_object_attributes_container=True,
         ),
     )
+    # NOTE: for the same reason, a parent-less symbolic value that is passed for
+    # an argument and also inside a later argument (e.g. `A(x=v, y=[v])`) has
+    # been adopted by the inner container: the argument itself gets a copy.
+    for key, value in self._sym_attributes.sym_items():
+      if isinstance(value, base.Symbolic) and value.sym_parent is not None:
+        value = value.clone()
+        value.sym_setpath(utils.KeyPath(key, self._sym_attributes.sym_path))
+        dict.__setitem__(self._sym_attributes, key, value)
     self._sym_attributes.sym_setparent(self)
     self._on_init()
     self.seal(sealed)
